@@ -375,7 +375,8 @@ def run(ctx):
         "rule": "spec/Wire.tla!Cases: every message class of cascade.shm.api (sizes/free space at 0, 1, 255, 256, 2^31-1, 2^31, "
                 "2^32-1, 2^32, 2^40, 2^63-1; ASCII keys from empty to 255 characters; every text field of every shm message at 0, 1, 255, 256, 512 characters and, "
                 "refusal allowed but no alteration, at 513, 1000, 4000; out-of-domain: -1, 2^64, a non-ASCII key), "
-                "every cascade.executor.msg class (indices up to 2^65, optional fields absent/present, empty and non-ASCII texts, "
+                "every cascade.executor.msg class (host ids 'h0' / 'node-12.cluster' / '10.0.0.7' / 'a.b.c' / "
+                "'h:1', worker names 'w0' / 'w10' / 'gpu.0' / '.', dotted dataset ids, indices up to 2^65, optional fields absent/present, empty and non-ASCII texts, "
                 "payloads of 0/3/320 bytes) through ser_message, callback, ReliableSender and send_data framing, ControllerReport, "
                 "every gateway request/response pair through request_response + parse_request + serialize_response, and job "
                 "instances (empty, multi-output, keyword+positional edges, static inputs, serdes, ext_outputs) through the job "
